@@ -2,7 +2,7 @@
 # usage: tools/eval_benign.sh  -- applies every behaviour-preserving edit in selftest/benign to a scratch worktree of /repo HEAD
 # (never to /repo) and runs the listed checks: every one must stay silent.
 cd /verif
-declare -A props=( [capacity-hints]="C02 C19 C13" [reorder-field-initialisers]="C02 C18" [extract-helper-in-validation]="C08" [negated-branch-in-kahn]="C06" [extra-diagnostics]="C01 C06" [unused-local-renamed]="C02 C18" [kahn-lifo-queue]="C06" [swap-cache-update-statements]="C06 C19" [release-local-alias]="C02 C09" )
+declare -A props=( [capacity-hints]="C02 C19 C13" [reorder-field-initialisers]="C02 C18" [extract-helper-in-validation]="C08" [negated-branch-in-kahn]="C06" [extra-diagnostics]="C01 C06" [unused-local-renamed]="C02 C18" [kahn-lifo-queue]="C06" [swap-cache-update-statements]="C06 C19" [release-local-alias]="C02 C09" [depths-lifo-queue]="C19" )
 mkdir -p /tmp/evalbenign
 for f in selftest/benign/*.diff; do
   name=$(basename $f .diff); wt=/tmp/evalbenign/wt-$name; vr=/tmp/evalbenign/vr-$name
